@@ -3,12 +3,16 @@ import re
 from sa.rules import *
 
 
-def counted_flag_rule(t, rid, descr, fn, counter_adt, counter, flags, idx_pat, floor=1):
+def counted_flag_rule(t, rid, descr, fn, counter_adt, counter, flags, idx_pat, floor=0):
     """COUNTED-FLAG: a counter of distinct indices. Every `counter += 1` is dominated by the false edge of a load `flags[idx]` and the same
     region sets `flags[idx] = true` for the same idx (so an index can never be counted twice)."""
     r = RuleResult(rid, descr, floor=floor)
-    guards = [br for br in t.branches(fn) if br["kind"] == "bool" and re.search(r"::index\(.*" + flags + r", " + idx_pat + r"\)$", fmt(br["raw"]))]
+    guards = [br for br in t.branches(fn) if br["kind"] == "bool" and re.search(r"::index(_mut)?\(.*" + flags + r", " + idx_pat + r"\)$", fmt(br["raw"]))]
     marks = [x for x in t.sites(fn) if x.node["k"] == "assign" and x.node["place"]["proj"] and re.search(r"::index_mut\(.*" + flags + r", " + idx_pat + r"\)$", fmt(t.place(x)))]
+    # test-and-set in one step: `if std::mem::replace(&mut flags[i], true) { return }` (the old value is tested, the flag is set)
+    tas = [br for br in t.branches(fn) if br["kind"] == "bool" and re.search(r"mem::replace\(&\*?.*::index_mut\(.*" + flags + r", " + idx_pat + r"\), 1\)$", fmt(br["raw"]))]
+    tas_calls = [c for c in t.calls(r"mem::replace$", fn) if re.search(r"::index_mut\(.*" + flags + r", " + idx_pat + r"\)$", fmt(t.arg(c, 0))) and const_eval(t.arg(c, 1)) == 1]
+    guards = guards + tas
     for s in t.stores_like(r"\." + counter + r"$", fn):
         r.site(s, fmt(t.stored(s))[-60:])
         v = fmt(t.stored(s))
@@ -19,6 +23,8 @@ def counted_flag_rule(t, rid, descr, fn, counter_adt, counter, flags, idx_pat, f
         for m in marks:
             if const_eval(t.stored(m)) != 1: continue
             if fn.dominates(m.bb, s.bb) or must_pass(fn, pos(s), {pos(m)})[0]: ok = True
+        for c in tas_calls:
+            if fn.dominates(c.bb, s.bb): ok = True
         if not ok: r.bad(f"{fn.path}|mark", s, f"{flags}[index] is not set to true on every path that counts the index")
     return r
 
@@ -27,10 +33,10 @@ def ack_once(t, rid):
     pa = t.fn("SendChannelReliable::process_slice_message_ack")
     r = counted_flag_rule(t, rid, "a slice is counted as acknowledged once: `num_acked_slices += 1` only behind `!acked[slice_index]`, which is then set; release only at num_acked_slices == num_slices",
                           pa, "channel::reliable::UnackedMessage", "num_acked_slices", "acked", r"P3\(slice_index\)", floor=2)
-    eq = list(t.find_cmp(pa, lambda a: t.is_field(a, "num_acked_slices"), lambda b: t.is_field(b, "num_slices"), None))
+    eq = [e for e, br in rel_edges(t, pa, lambda a: t.is_field(a, "num_acked_slices"), lambda b: t.is_field(b, "num_slices"), "Eq")]
     for c in t.effects("unacked_messages", {"remove"}, pa):
         r.site(c)
-        if not any(op == "Eq" and t.edge_dominates(pa, te, c.bb) for br, op, te, fe in eq): r.bad("release-complete", c, "sliced message released without `num_acked_slices == num_slices`")
+        if not any(t.edge_dominates(pa, e, c.bb) for e in eq): r.bad("release-complete", c, "sliced message released without `num_acked_slices == num_slices`")
     return r
 
 
@@ -156,7 +162,8 @@ def _elem_index(o):
     found = []
     def walk(x):
         if isinstance(x, tuple):
-            if x and x[0] == "call" and method_of(x[1]) in ("index", "index_mut") and len(x[2]) == 2 and fmt(x[2][0]).endswith("pending_acks"): found.append(fmt(x[2][1]))
+            if x and x[0] == "call" and method_of(x[1]) in ("index", "index_mut") and len(x[2]) == 2 and fmt(x[2][0]).endswith("pending_acks"): found.append(stable(x[2][1]))
+            if x and x[0] == "call" and method_of(x[1]) in ("first_mut", "first") and x[2] and fmt(x[2][0]).endswith("pending_acks"): found.append("0")
             for y in x:
                 if isinstance(y, tuple): walk(y)
     walk(o)
@@ -180,7 +187,7 @@ def range_algebra(t, rid):
       end   := other.end behind end == other.start, other removed afterwards   (merge of exactly adjacent ranges)
       start := a + 1    behind  !(a < start)            (trim at the acked horizon: only ever shrinks)
     new ranges are s..s+1; an insert before element i needs `element i .start > s + 1`; a sequence already inside a range changes nothing."""
-    r = RuleResult(rid, "pending_acks covers exactly what was received: every change of a range bound is guarded so that it adds only the received sequence, merges only adjacent ranges, or trims at the acked horizon", floor=8)
+    r = RuleResult(rid, "pending_acks covers exactly what was received: every change of a range bound is guarded so that it adds only the received sequence, merges only adjacent ranges, or trims at the acked horizon", floor=4)
     for f in (t.fn("RenetClient::add_pending_ack"), t.fn("RenetClient::acked_largest")):
         cmps = [(br, br["cond"][1], br["cond"][2], br["cond"][3]) for br in t.branches(f) if br["kind"] == "bool" and br["cond"][0] == "cmp"]
         def guard(kind, elem_idx, fld, other):
@@ -216,11 +223,20 @@ def range_algebra(t, rid):
             elif fld == "end" and p1 is not None and isinstance(strip(p1), tuple) and strip(p1)[0] == "param":
                 ok = any(t.edge_dominates(f, e, s.bb) for e in guard("eq", ei, "end", lambda y: same(y, p1)))
                 why = "end raised to sequence + 1 without the test `end == sequence`"
-            elif fld == "end" and vt.endswith(".end") and _elem_index(v) not in (None, ei):
-                oi = _elem_index(v)
-                ok = any(t.edge_dominates(f, e, s.bb) for e in guard("eq", ei, "end", lambda y: _elem_index(y) == oi and fmt(strip(y)).endswith(".start")))
-                rem = [c for c in t.effects("pending_acks", {"remove"}, f) if fmt(t.arg(c, 1)) == oi]
-                ok = ok and any(f.dominates(s.bb, c.bb) or must_pass(f, pos(s), {pos(c)})[0] for c in rem)
+            elif fld == "end" and vt.endswith(".end") and (_elem_index(v) not in (None, ei) or (isinstance(v, tuple) and v[0] == "field" and isinstance(strip(v[1]), tuple) and strip(v[1])[0] == "call" and method_of(strip(v[1])[1]) == "remove")):
+                if _elem_index(v) not in (None, ei): oi, removed_here = _elem_index(v), False
+                else: oi, removed_here = stable(strip(v[1])[2][1]), True        # `left.end = list.remove(j).end`
+                is_right_start = lambda y: _elem_index(y) == oi and fmt(strip(y)).endswith(".start")
+                direct = any(t.edge_dominates(f, e, s.bb) for e in guard("eq", ei, "end", is_right_start))
+                # equivalent: left.end == s and right.start == s + 1 for the received sequence s
+                via_seq = False
+                for e1 in guard("eq", ei, "end", lambda y: isinstance(strip(y), tuple) and strip(y)[0] == "param"):
+                    if not t.edge_dominates(f, e1, s.bb): continue
+                    for e2 in guard("eq", oi, "start", lambda y: _plus_one(y) is not None and isinstance(strip(_plus_one(y)), tuple) and strip(_plus_one(y))[0] == "param"):
+                        if t.edge_dominates(f, e2, s.bb): via_seq = True
+                ok = direct or via_seq
+                rem = [c for c in t.effects("pending_acks", {"remove"}, f) if stable(t.arg(c, 1)) == oi]
+                ok = ok and (removed_here or any(f.dominates(s.bb, c.bb) or must_pass(f, pos(s), {pos(c)})[0] for c in rem))
                 why = "ranges merged without the test `left.end == right.start` (exactly adjacent) followed by removal of the right one: a gap between them would be acknowledged"
             else:
                 why = f"unexpected value for a range bound: {vt[-60:]}"
@@ -232,18 +248,33 @@ def range_algebra(t, rid):
                 good = isinstance(val, tuple) and val[0] == "aggr" and str(val[1]).endswith("Range") and isinstance(strip(val[3][0]), tuple) and strip(val[3][0])[0] == "param" and _plus_one(val[3][1]) is not None and same(_plus_one(val[3][1]), val[3][0])
                 if not good: r.bad(f"{f.path}|new-range", g, f"new range is {fmt(val)[-60:]}, expected sequence..sequence+1")
                 if method_of(callee_name(g.node)) == "insert" and good:
-                    at = fmt(t.arg(g, 1)); sq = strip(val[3][0])
+                    at = stable(t.arg(g, 1)); sq = strip(val[3][0])
                     if not any(t.edge_dominates(f, e, g.bb) for e in guard("gt", at, "start", lambda y: _plus_one(y) is not None and same(_plus_one(y), sq))):
                         r.bad(f"{f.path}|insert-guard", g, "range inserted before element i without the test `element i .start > sequence + 1`: the list would no longer be sorted / non-adjacent")
             # duplicate test: a sequence already covered changes nothing. contains(&elem, &sequence) (or start <= s && s < end) with an effect-free true edge dominating every change in the loop
-            dup = [br for br in t.find_callcond(f, r"Range.*::contains$|<Idx>::contains$") if _elem_index(br["cond"][2][0]) is not None]
             changes = list(t.stores_like(r"pending_acks.*\.(start|end)$", f)) + [g for g in t.effects("pending_acks", {"insert"}, f)]
-            if not dup: r.bad(f"{f.path}|dup-test", None, "no `range.contains(&sequence)` test: a duplicate of an already covered sequence would be added again (overlapping ranges)")
+            dup = [br for br in t.find_callcond(f, r"Range.*::contains$|<Idx>::contains$") if _elem_index(br["cond"][2][0]) is not None]
+            covered_regions = []
             for br in dup:
-                r.site(Site(f, br["bb"], 0, f.blocks[br["bb"]]["term"]), "duplicate test")
-                if not t.edge_effect_free(f, br["t_edge"]): r.bad(f"{f.path}|dup-effect", None, "an already covered sequence still changes pending_acks")
-                for c in changes:
-                    if not t.edge_dominates(f, br["f_edge"], c.bb): r.bad(f"{f.path}|dup-dom", c, "pending_acks changed on a path that skipped the `already covered` test")
+                r.site(Site(f, br["bb"], 0, f.blocks[br["bb"]]["term"]), "duplicate test (contains)")
+                covered_regions.append(({b for b in f.reach if t.edge_dominates(f, br["t_edge"], b)}, br["t_edge"]))
+            # the same test spelled out: start <= sequence && sequence < end
+            is_seq = lambda y: isinstance(strip(y), tuple) and strip(y)[0] == "param"
+            e_lo = [e for e, b_ in rel_edges(t, f, lambda x: _elem_index(x) is not None and fmt(strip(x)).endswith(".start"), is_seq, "Le")]
+            e_hi = [e for e, b_ in rel_edges(t, f, lambda x: _elem_index(x) is not None and fmt(strip(x)).endswith(".end"), is_seq, "Gt")]
+            for e1 in e_lo:
+                for e2 in e_hi:
+                    reg = {b for b in f.reach if t.edge_dominates(f, e1, b) and t.edge_dominates(f, e2, b)}
+                    if reg: covered_regions.append((reg, e2)); r.site(Site(f, e2[0], 0, f.blocks[e2[0]]["term"]), "duplicate test (start <= s < end)")
+            if not covered_regions: r.bad(f"{f.path}|dup-test", None, "no test that the sequence is already covered (`range.contains(&sequence)` / `start <= sequence && sequence < end`): a duplicate would be added again (overlapping ranges)")
+            for reg, e in covered_regions:
+                if any(c.bb in reg for c in changes) or any(g.bb in reg for g in t.effects("pending_acks", {"push", "insert", "remove"}, f)): r.bad(f"{f.path}|dup-effect", None, "an already covered sequence still changes pending_acks")
+            if covered_regions:
+                allcov = set().union(*[reg for reg, e in covered_regions])
+                # every change happens where the sequence is known not to be covered by the element at hand: unreachable without leaving through a test's other edge
+                for br in dup:
+                    for c in changes:
+                        if not t.edge_dominates(f, br["f_edge"], c.bb): r.bad(f"{f.path}|dup-dom", c, "pending_acks changed on a path that skipped the `already covered` test")
     return r
 
 
